@@ -107,7 +107,10 @@ var c13Cfg = &errflowCfg{
 	sinkDynNames: map[string]bool{},
 	swallowSentinels: map[string]bool{
 		"z/core.ErrDeadlineExceeded": true, // applySubQueryFilters: the outer scan re-tests the same deadline on its next row
-		"io.EOF":                     true, // ProcessRemoteQuery: end of stream
+		// scoped to one function ("<function> <sentinel>"): the follower's query got io.EOF only
+		// because the leader closed the stream it would report to; anywhere else io.EOF from a
+		// producer means the data ended early and must count as a failure
+		"(*z/rpc.client).ProcessRemoteQuery io.EOF": true,
 	},
 	swallowPreds: map[string]bool{},
 	sinkInstr: func(in ssa.Instruction) bool {
@@ -288,7 +291,7 @@ func init() {
 		Explanation: "Decides, for every input and schedule, the structural clause 'on the query result path no error is dropped and every error reaches the caller or the failure bookkeeping': errflow rules over the SSA form of every call site of a result producer, plus dominance rules for the success bookkeeping (cache succeed, NumSuccessfulPartitions) and the scan-continuation rule (a scan never ends by itself with a nil error).",
 		NotDecided:  []string{"whether deadlines/timeouts fire at the right time", "gRPC transport failures below the stream API", "os.IsNotExist on the data file being served as 'no file yet' (reading note)"},
 		Assumptions: []string{"go/ssa models the control flow of the compiled program", "wrapper functions (fmt.Errorf, golog Errorf, errors.New) return a non-nil error carrying their argument"},
-		Rules:       []func(*Ctx){ruleC13a, ruleC13w, ruleC13b, ruleC13d, ruleC13e, ruleC13f, ruleC13g},
+		Rules:       []func(*Ctx){ruleC13a, ruleC13w, ruleC13b, ruleC13d, ruleC13e, ruleC13f, ruleC13g, ruleC13h},
 	})
 }
 
@@ -791,4 +794,72 @@ func ruleC13g(c *Ctx) {
 	if nBad == 0 {
 		c.ok(rule, "no dropped module errors on the query/serving path", token.NoPos, itoa(n)+" error-returning calls to module functions examined in packages zenodb, core, planner, rpc, rpc/server, web")
 	}
+}
+
+// ruleC13h: the leader's end of a follower's query stream.
+func ruleC13h(c *Ctx) {
+	const rule = "C13.h"
+	c.describe(rule, "errflow + dom: in the handler that (*server).HandleRemoteQueries registers, (1) every error received from the follower's stream (RecvMsg, or the first receive handed over on the channel) is, whenever it may be non-nil — io.EOF included: the stream ended without the final message — turned into the handler's returned error; (2) a message is used as fields or as a row only after its EndOfResults flag was tested false, so the single final message of a query that failed before announcing fields is not mistaken for the fields message")
+	hq := c.need(rule, "(*z/rpc/server.server).HandleRemoteQueries")
+	if hq == nil {
+		return
+	}
+	var h *ssa.Function
+	for _, a := range hq.AnonFuncs {
+		for _, p := range a.Params {
+			if typeStr(p.Type()) == "z/core.OnFields" {
+				h = a
+			}
+		}
+	}
+	if h == nil {
+		c.undecided(rule, "registered query handler", hq.Pos(), "no closure with an OnFields parameter found in HandleRemoteQueries")
+		return
+	}
+	c.touch(h)
+	n := 0
+	for _, in := range instrs(h) {
+		var ev ssa.Value
+		what := ""
+		if call, ok := in.(*ssa.Call); ok && strings.HasSuffix(calleeName(call), ".RecvMsg") {
+			ev, what = call, "stream.RecvMsg"
+		}
+		if u, ok := in.(*ssa.UnOp); ok && u.Op == token.ARROW && isErrorType(u.Type()) {
+			ev, what = u, "the first receive's error (channel)"
+		}
+		if ev == nil {
+			continue
+		}
+		n++
+		r := errflowE2(c.P, ev, c13Cfg)
+		if r.ok {
+			c.ok(rule, "handler: a failed receive ("+what+") fails the partition", in.Pos(), "whenever the receive error may be non-nil the handler returns an error")
+		} else {
+			c.bad(rule, "handler: a failed receive ("+what+") fails the partition", in.Pos(), "a receive error — e.g. io.EOF when the follower's stream ends without the final message — can end the handler with a nil error: the partition counts as successful although its rows are missing ("+r.reason+")", r.path...)
+		}
+	}
+	c.floor(rule, "receives in the registered handler", n, 2)
+	// (2) uses of a message are guarded by EndOfResults == false
+	m := 0
+	for _, call := range calls(h) {
+		isCb := false
+		for _, p := range h.Params {
+			ts := typeStr(p.Type())
+			if (ts == "z/core.OnFields" || ts == "z/core.OnRow" || ts == "z/core.OnFlatRow") && isCallOfParam(call, p) {
+				isCb = true
+			}
+		}
+		if !isCb {
+			continue
+		}
+		m++
+		guarded := false
+		for _, g := range guardsOf(call.Block()) {
+			if !g.pos && isFieldLoad(g.v, "z/rpc.RemoteQueryResult.EndOfResults") {
+				guarded = true
+			}
+		}
+		c.check(rule, "handler: callback #"+itoa(m)+" runs only for a message that is not the final one", call.Pos(), guarded, "dominated by EndOfResults == false", "a received message is handed on as fields/row without its EndOfResults flag having been tested: the single final message of a query that failed before announcing fields is passed on as nil fields, which queryCluster takes for the partition's successful final result")
+	}
+	c.floor(rule, "callback calls in the registered handler", m, 3)
 }
